@@ -57,7 +57,7 @@ def search(ctx, reasons):
 
 def replay(ctx, payload):
     res = core.Result()
-    case = payload.get('case', {})
+    case = payload.get('case') or payload      # a replay file written by check, or a bare corpus case
     part = case.get('part')
     if part == 'events':
         res.merge(c20_events.run_cases(ctx, [case['ops']], use_model=True))
